@@ -4,6 +4,7 @@ import M3d.Model.MeshOps
 import M3d.Model.BlurIter
 import M3d.Model.DeformTargets
 import M3d.Model.ArapOp
+import M3d.Model.ArapLoop
 import M3d.Drv.C10Lin
 /-!
 Line-protocol handler for C10.  Core-only.
@@ -32,6 +33,7 @@ structure Line where
   out : List String          -- tokens, or a single status token
   status : String            -- "ok" | "timeout" | "panic:…"
   keep : List Nat
+  after : Option (List String)   -- section `A`: the INPUT object re-encoded after the call
   coords : List String
 
 def takeSection (marker : String) (ws : List String) : Option (List String × List String) :=
@@ -55,12 +57,15 @@ def parseLine (ws : List String) : Option Line := do
       | none => some ([], tok, r2)
     let (keep, r4) ← takeSection "K" r3
     let keep ← keep.mapM (·.toNat?)
+    let (after, r4) := match takeSection "A" r4 with
+      | some (a, r5) => (some a, r5)
+      | none => (none, r4)
     let coords := match r4 with
       | "C" :: n :: rest => match n.toNat? with
         | some _ => rest
         | none => []
       | _ => []
-    some { kind, params, inp, out, status, keep, coords }
+    some { kind, params, inp, out, status, keep, after, coords }
   | _ => none
 
 def parseTri (s : String) : Option Tri :=
@@ -251,10 +256,46 @@ def handleArapOp (l : Line) : Option String := do
   let r := arapOpCheck n z x none frames
   some (verdict [("index-maps", r.1), ("unsqueeze", r.2.1), ("constraints-in-unsqueeze", r.2.2)])
 
+/-! ### `araploop3`: the real control loop of `ARAP.deformMap` against `M3d.ArapLoop` -/
+
+def keyStr (key : String) (ps : List String) : Option String :=
+  ps.findSome? fun s => match s.splitOn "=" with
+    | [k, v] => if k == key then some v else none
+    | _ => none
+
+/-- The real `deformMap` returned the iterate(s) number `match:` of the step-by-step repetition with
+the real `Targets` / `LinSolve` / `rotations` / `energy` on the same operator; `E:` are the real
+energies `E_0 … E_max` (bits).  `stops-only-when-converged` fails iff NO matching `n` is an allowed
+stop (`M3d.ArapLoop.allowedStop` at `Float`: the Go test `1 - E_n/E_{n-1} < tol` on the same bits;
+`M3d.C10.arap_loop_stops_by_the_relative_rule`: the loop as it is always stops at an allowed `n`)
+AND the real energies were still dropping there (`stillDropping` evaluated EXACTLY, at `Rat`, on the
+real energies; `guard` > 0 keeps traces at rounding-noise level out) — which by
+`M3d.C10.arap_no_early_stop_while_energy_drops` no allowed stop does. -/
+def handleArapLoop (l : Line) : Option String := do
+  if l.status ≠ "ok" then
+    return (if l.status = "timeout" then "FAIL terminates=0" else "FAIL no-panic=0")
+  let mn ← keyVal "min" l.params
+  let mx ← keyVal "max" l.params
+  let tol ← floatOfHex (← keyStr "tol" l.params)
+  let guard ← floatOfHex (← keyStr "guard" l.params)
+  let es ← (if let some e := (tagged "E" l.params).head? then (if e == "" then some [] else (e.splitOn ",").mapM floatOfHex) else none)
+  let ms ← natList (← (tagged "match" l.params).head?)
+  let E : Nat → Float := fun k => es.getD k 0
+  -- exact evaluation of "still dropping" (not judged when an energy is not a finite number)
+  let dropping : Nat → Bool := fun n =>
+    match es.mapM (fun e => ratOfBits e.toBits), ratOfBits tol.toBits, ratOfBits guard.toBits with
+    | some qs, some t, some g =>
+      decide (t < 1) && decide (0 < g) && n + 1 < qs.length && ArapLoop.stillDropping t g (fun k => qs.getD k 0) n
+    | _, _, _ => false
+  some (verdict [("energies-E0..Emax", es.length == mx + 1),
+    ("output-is-an-iterate(bitwise)", !ms.isEmpty),
+    ("stops-only-when-converged", ms.isEmpty || ms.any fun n => ArapLoop.allowedStop tol mn mx E n || !dropping n)])
+
 /-! ### 3-D kinds -/
 
 def handle3 (l : Line) : Option String := do
   if l.kind == "arapop3" then return (← handleArapOp l)
+  if l.kind == "araploop3" then return (← handleArapLoop l)
   if l.kind == "araplin3" then
     -- the linear step of ARAP (`M3d.ArapLin`, `M3d/Drv/C10Lin.lean`)
     if l.status ≠ "ok" then
@@ -471,10 +512,26 @@ def handle2 (l : Line) : Option String := do
     some (verdict (base ++ [("same-segments", out.length == inp.length), ("same-vertex-count", vout.length == vin.length)] ++ geom))
   | _ => none
 
+/-- `input-unchanged`: every operation judged here is documented to CREATE a new mesh, so the mesh
+object the program passed in must still denote the mesh it denoted before the call — a program may
+use it again (`M3d.C10.program_on_objects_is_program_on_values`: with operations that write only
+to triangles they allocated, a Go program over `*Mesh` objects computes what the same program
+computes over mesh values; `eliminate_edges_leaves_every_object_unchanged`).  Section `A` is the
+input object re-encoded (same canonical encoding as `I`) after the real call returned. -/
+def inputUnchanged (l : Line) : Bool :=
+  match l.after with
+  | none => true
+  | some a => a == l.inp
+
+def withInputCheck (l : Line) (v : String) : String :=
+  if inputUnchanged l then v
+  else if v == "ok" then "FAIL input-unchanged=0"
+  else v ++ " input-unchanged=0"
+
 def handleAll (ws : List String) : Option String := do
   let l ← parseLine ws
-  if l.kind.endsWith "3" then handle3 l
-  else if l.kind.endsWith "2" then handle2 l
+  if l.kind.endsWith "3" then (handle3 l).map (withInputCheck l)
+  else if l.kind.endsWith "2" then (handle2 l).map (withInputCheck l)
   else none
 
 end M3d.Drv.C10
